@@ -92,9 +92,21 @@ def _child_main(modname, cases_path, out_path, start, stop):
         state['cid'] = case['cid']
         try:
             res = mod.run_case(case)
-        except BaseException as e:  # noqa: BLE001  harness error: surfaced as inconclusive, never as held
-            res = {'violations': [], 'obs': {}, 'nontrivial': False,
-                   'inconclusive': f'harness error: {e!r}', 'trace': traceback.format_exc()[-3000:]}
+        except BaseException as e:  # noqa: BLE001
+            tb_text = traceback.format_exc()
+            frames = traceback.extract_tb(e.__traceback__)
+            in_library = any('/mpservice/' in (f.filename or '') for f in frames) or '/mpservice/' in str(e)[:20000]
+            environmental = isinstance(e, (MemoryError, KeyboardInterrupt)) or (isinstance(e, OSError) and e.errno in (12, 23, 24, 28))
+            if in_library and not environmental:
+                # the code under test raised something no oracle of this check anticipated: on a tree where the property
+                # holds this never happens (the unchanged tree is swept over seeds), so it is reported as a violation
+                res = {'violations': [{'mech': f'unexpected-exception/{type(e).__name__}',
+                                       'msg': f'the code under test raised {e!r}'[:600], 'trace': tb_text[-2500:]}],
+                       'obs': {}, 'nontrivial': False, 'exit_after': True}
+            else:
+                # harness error: surfaced as inconclusive, never as held
+                res = {'violations': [], 'obs': {}, 'nontrivial': False,
+                       'inconclusive': f'harness error: {e!r}', 'trace': tb_text[-3000:]}
         state['cid'] = None
         res['cid'] = case['cid']
         res['wall'] = round(time.monotonic() - state['t0'], 3)
